@@ -16,6 +16,7 @@ import TdVerif.Lemmas.C15Dispatch
 import TdVerif.Lemmas.C15Wrap
 import TdVerif.Lemmas.C15Fields
 import TdVerif.Lemmas.C15Update
+import TdVerif.Lemmas.C15SetInplace
 
 namespace TdVerif.Props.C15
 open TdVerif.C15 TdVerif.Gen.Tc
@@ -715,6 +716,232 @@ theorem update_stale_placeholder_pinned_counterexamples :
     assocSet, TDm.keys]
 
 end behindSet
+
+/-! ### class options -/
+section options
+
+/-- `autocast` and `nocast` exclude each other, and that is the only constraint on the four options -/
+theorem options_exclusive (o : ClsOpts) : decoratorOpts o = .ok o ↔ ¬ (o.autocast = true ∧ o.nocast = true) := by
+  unfold decoratorOpts
+  cases o.autocast <;> cases o.nocast <;> simp
+
+/-- the field-name check: a class is accepted iff `shadow` or no declared field is a reserved (tensordict) name other than
+the two exempt ones -/
+theorem field_names_iff (reserved exempt : List Nat) (shadow : Bool) (fields : List Nat) :
+    fieldNamesOk reserved exempt shadow fields = true
+      ↔ shadow = true ∨ ∀ f ∈ fields, f ∈ reserved → f ∈ exempt := by
+  unfold fieldNamesOk
+  simp only [Bool.or_eq_true, List.all_eq_true, Bool.not_eq_true', mem_iff]
+  constructor
+  · rintro (h | h)
+    · exact Or.inl h
+    · right
+      intro f hf hr
+      rcases h f hf with h1 | h1
+      · have : mem f reserved = true := mem_iff.mpr hr
+        rw [this] at h1; cases h1
+      · exact h1
+  · rintro (h | h)
+    · exact Or.inl h
+    · right
+      intro f hf
+      cases hm : mem f reserved with
+      | false => exact Or.inl rfl
+      | true => exact Or.inr (h f hf (mem_iff.mp hm))
+
+/-- what the metaclass resolves when it succeeds: keywords win, the base's flags are the defaults, never `shadow`, and the
+result passed the `autocast`/`nocast` check -/
+theorem metaOpts_ok (ka kn kf : Option Bool) (ks : Bool) (b : Option ClsOpts) (o : ClsOpts)
+    (h : metaOpts ka kn kf ks b = .ok o) :
+    ks = false ∧ o.shadow = false ∧ ¬ (o.autocast = true ∧ o.nocast = true)
+    ∧ o.autocast = ka.getD ((b.map (·.autocast)).getD false)
+    ∧ o.nocast = kn.getD ((b.map (·.nocast)).getD false)
+    ∧ o.frozen = kf.getD ((b.map (·.frozen)).getD false)
+    ∧ (∀ b', b = some b' → b'.frozen = o.frozen) := by
+  unfold metaOpts at h
+  cases ks with
+  | true => simp at h
+  | false =>
+    simp only [Bool.false_eq_true, ↓reduceIte] at h
+    generalize hq : (⟨_, _, _, false⟩ : ClsOpts) = q at h
+    cases hd : decoratorOpts q with
+    | error e => rw [hd] at h; cases h
+    | ok o' =>
+      rw [hd] at h
+      have ho' : o' = q ∧ ¬ (q.autocast = true ∧ q.nocast = true) := by
+        unfold decoratorOpts at hd
+        by_cases hc : (q.autocast && q.nocast) = true
+        · rw [if_pos hc] at hd; cases hd
+        · rw [if_neg hc] at hd
+          cases hd
+          exact ⟨rfl, by simpa using hc⟩
+      obtain ⟨rfl, hex⟩ := ho'
+      have hoq : o = o' ∧ (∀ b', b = some b' → b'.frozen = o'.frozen) := by
+        cases b with
+        | none => simp only at h; cases h; exact ⟨rfl, fun _ hb => by cases hb⟩
+        | some b' =>
+          simp only at h
+          by_cases hf : (b'.frozen != o'.frozen) = true
+          · rw [if_pos hf] at h; cases h
+          · rw [if_neg hf] at h
+            cases h
+            refine ⟨rfl, fun b'' hb => ?_⟩
+            cases hb
+            simpa using hf
+      obtain ⟨rfl, hfr⟩ := hoq
+      subst hq
+      exact ⟨rfl, rfl, hex, rfl, rfl, rfl, hfr⟩
+
+/-- NO class built through the metaclass (`class X(TensorClass, …)`, `TensorClass["…"]`) ever has `shadow`: the keyword is
+rejected and the flag is not inherited (finding C15-subclass-shadow, as a theorem about the code) -/
+theorem subclass_never_shadow (ka kn kf : Option Bool) (ks : Bool) (b : Option ClsOpts) (o : ClsOpts)
+    (h : metaOpts ka kn kf ks b = .ok o) : o.shadow = false ∧ ks = false := by
+  obtain ⟨h1, h2, _⟩ := metaOpts_ok ka kn kf ks b o h
+  exact ⟨h2, h1⟩
+
+/-- a subclass cannot change `frozen` of an option-carrying base (python's dataclass rule: TypeError), unless the options
+are already refused (`autocast` with `nocast`: ValueError) -/
+theorem subclass_frozen_must_match (ka kn : Option Bool) (f : Bool) (b : ClsOpts) (h : b.frozen ≠ f) (o : ClsOpts) :
+    metaOpts ka kn (some f) false (some b) ≠ .ok o := by
+  intro hok
+  obtain ⟨_, _, _, _, _, hfr, hb⟩ := metaOpts_ok ka kn (some f) false (some b) o hok
+  have := hb b rfl
+  simp only [Option.getD_some] at hfr
+  rw [hfr] at this
+  exact h this
+
+/-- every public method and operator is covered whatever the options are (the options change the class configuration only
+through `frozen`, which adds two dataclass methods) -/
+theorem api_covered_any_options (o : ClsOpts) : ∀ m ∈ publicApi ++ operatorApi,
+    (dispatch (cfgOf o []) m).covered = true ∨ m ∈ documentedUncovered := by
+  intro m hm
+  unfold cfgOf
+  cases o.frozen
+  · exact api_covered m hm
+  · exact api_covered_frozen m hm
+
+end options
+
+/-! ### `tc.set(key, value, inplace=…)` and tuple keys -/
+section inplace
+variable {T V : Type}
+
+/-- with `inplace=False` the general `_set` IS the `_set` of attribute assignment: every theorem above about `setField` is
+a theorem about `tc.set(key, value)` -/
+theorem set_inplace_false_is_assignment (fields : List String) (o : Opts) (h : Hint) (ck : CopyOk) (pinned : Bool)
+    (tc : TC (TDm T V) V) (key : String) (a : SetArg T V) :
+    setFieldI fields o h false ck pinned tc key a = setField fields o h tc key a :=
+  setFieldI_false fields o h ck pinned tc key a
+
+/-- `attr_is_key` (write, any `inplace`): a successful `set` keeps the instance well formed -/
+theorem set_inplace_preserves_wf (fields : List String) (o : Opts) (h : Hint) (inplace : Bool) (ck : CopyOk) (pinned : Bool)
+    (tc tc' : TC (TDm T V) V) (key : String) (a : SetArg T V) (hwf : WF fields tc)
+    (hs : setFieldI fields o h inplace ck pinned tc key a = .ok tc') : WF fields tc' := by
+  obtain ⟨hk, _, hshape⟩ := setFieldI_shape fields o h inplace ck pinned tc tc' key a hs
+  rcases hshape with ⟨e, rfl⟩ | ⟨rfl, _⟩
+  · exact wf_setTensor fields tc key e hwf hk
+  · exact wf_setNone fields tc key hwf hk
+
+/-- … and leaves every other field reading what it read -/
+theorem set_inplace_frame (fields : List String) (o : Opts) (h : Hint) (inplace : Bool) (ck : CopyOk) (pinned : Bool)
+    (tc tc' : TC (TDm T V) V) (key g : String) (a : SetArg T V)
+    (hs : setFieldI fields o h inplace ck pinned tc key a = .ok tc') (hg : g ≠ key) : getField tc' g = getField tc g := by
+  obtain ⟨_, _, hshape⟩ := setFieldI_shape fields o h inplace ck pinned tc tc' key a hs
+  rcases hshape with ⟨e, rfl⟩ | ⟨rfl, _⟩
+  · simp [getField_setTensor, hg]
+  · simp [getField_setNone, hg]
+
+/-- a LOCKED instance accepts exactly the in-place writes into existing entries (as `TensorDict.set(..., inplace=True)`
+does) and neither its key set nor its placeholders change -/
+theorem set_locked_only_in_place (fields : List String) (o : Opts) (h : Hint) (inplace : Bool) (ck : CopyOk) (pinned : Bool)
+    (tc tc' : TC (TDm T V) V) (key : String) (a : SetArg T V) (hwf : WF fields tc) (hl : tc.td.locked = true)
+    (hs : setFieldI fields o h inplace ck pinned tc key a = .ok tc') :
+    inplace = true ∧ key ∈ tc.td.keys ∧ (∀ x, x ∈ tc'.td.keys ↔ x ∈ tc.td.keys) ∧ tc'.nt = tc.nt := by
+  obtain ⟨_, hlock, hshape⟩ := setFieldI_shape fields o h inplace ck pinned tc tc' key a hs
+  obtain ⟨hi, hk⟩ := hlock hl
+  rcases hshape with ⟨e, rfl⟩ | ⟨_, hu⟩
+  · refine ⟨hi, hk, ?_, ?_⟩
+    · intro x
+      rw [(keys_setTensor tc key e x).1]
+      constructor
+      · rintro (rfl | h1)
+        · exact hk
+        · exact h1
+      · intro h1; exact Or.inr h1
+    · have hnot : key ∉ tc.nt.keys := hwf.disj key hk
+      simp only [setTensor, assocDel]
+      rw [List.filter_eq_self]
+      intro kv hkv
+      simp only [bne_iff_ne, ne_eq]
+      intro he
+      exact hnot (List.mem_map.mpr ⟨kv, hkv, he⟩)
+  · rw [hl] at hu; cases hu
+
+theorem set_locked_rejects_new_entry (fields : List String) (o : Opts) (h : Hint) (inplace : Bool) (ck : CopyOk) (pinned : Bool)
+    (tc : TC (TDm T V) V) (key : String) (a : SetArg T V) (hl : tc.td.locked = true)
+    (hno : ¬ (inplace = true ∧ key ∈ tc.td.keys)) : setFieldI fields o h inplace ck pinned tc key a = .error .lock := by
+  unfold setFieldI
+  have : (tc.td.locked && !(inplace && tc.td.keys.contains key)) = true := by
+    rw [hl]
+    cases inplace <;> simp_all
+  rw [if_pos this]
+
+/-- a tensor value under a plain class or an `Any`-typed field of an autocast class goes to `TensorDict.set(key, value,
+inplace=inplace)` whatever `inplace` is (repaired code) — `tc.set` behaves as the `set` of its tensordict -/
+theorem set_inplace_tensor_reaches_td (fields : List String) (o : Opts) (h : Hint) (inplace : Bool) (ck : CopyOk)
+    (tc : TC (TDm T V) V) (key : String) (a : SetArg T V) (hk : key ∈ fields) (hkind : a.kind = .tensor)
+    (hcls : o.autocast = false ∨ h = .any) (hpre : (tc.td.locked && !(inplace && tc.td.keys.contains key)) = false) :
+    setFieldI fields o h inplace ck false tc key a = tdSetEntry inplace ck.asTensor tc key (.leaf a.asTensor) := by
+  unfold setFieldI
+  have hk' : (!fields.contains key) = false := by simp [hk]
+  rw [hpre, hk']
+  simp only [Bool.false_eq_true, ↓reduceIte]
+  unfold setPlan
+  rcases hcls with ho | hh
+  · simp [ho, hkind, runSetPlan]
+  · cases ho : o.autocast <;> simp [ho, hkind, hh, runSetPlan]
+
+/-- REGRESSION WITNESS (repaired by a `fix:` commit): under `autocast` the PINNED tail refused the in-place write of a tensor
+into an `Any`-typed field that already holds a tensor ("Cannot update an existing entry of type Tensor with a value of type
+Tensor"), which the plain tensordict performs; the repaired code performs it. -/
+theorem set_inplace_any_tensor_pinned_counterexample :
+    let tc : TC (TDm Nat Nat) Nat := ⟨"A", ⟨[("a", .leaf 1)], false⟩, []⟩
+    let arg : SetArg Nat Nat := ⟨.tensor, 0, 7, some 7, 0, none⟩
+    let ck : CopyOk := ⟨true, true, true, true, true⟩
+    setFieldI ["a"] ⟨true, false⟩ .any true ck true tc "a" arg = .error .runtime
+    ∧ (setFieldI ["a"] ⟨true, false⟩ .any true ck false tc "a" arg).bind (fun tc' => getField tc' "a") = .ok (.tensor 7)
+    ∧ (tdSetEntry true true tc "a" (.leaf 7)).bind (fun tc' => getField tc' "a") = .ok (.tensor 7) := by
+  simp [setFieldI, setPlan, runSetPlan, tdSetEntry, TDm.keys, setTensor, getField, assocSet, assocDel, List.lookup,
+    unwrapEntry, Except.bind, bind]
+
+/-- a 1-tuple key is the string key (with the flag passed on: repaired code) -/
+theorem set_tuple_singleton (fields : List String) (o : Opts) (h : Hint) (inplace : Bool) (ck : CopyOk)
+    (nestedSet : T → Except Err T) (tc : TC (TDm T V) V) (k : String) (a : SetArg T V) :
+    setTuple fields o h inplace ck true nestedSet tc [k] a = setFieldI fields o h inplace ck false tc k a := by
+  simp [setTuple]
+
+/-- a longer tuple key: the nested collection found under the first key is written by its own `set` and stored back under
+that key as a tensor-collection value, with the same `inplace` -/
+theorem set_tuple_nested (fields : List String) (o : Opts) (h : Hint) (inplace : Bool) (ck : CopyOk)
+    (nestedSet : T → Except Err T) (tc : TC (TDm T V) V) (k k2 : String) (rest : List String) (a : SetArg T V) (t t' : T)
+    (hget : getField tc k = .ok (.tensor t)) (hn : nestedSet t = .ok t') :
+    setTuple fields o h inplace ck true nestedSet tc (k :: k2 :: rest) a
+      = setFieldI fields o h inplace ck false tc k { a with kind := .tensor, asTensor := t', castAccepted := some t' } := by
+  simp [setTuple, hget, hn]
+
+/-- REGRESSION WITNESS (repaired by a `fix:` commit): the PINNED tuple-key branch dropped `inplace`, so a locked instance
+refused `tc.set(("x",), v, inplace=True)` although its tensordict performs it; the repaired branch passes the flag on. -/
+theorem set_tuple_drops_inplace_pinned_counterexample :
+    let tc : TC (TDm Nat Nat) Nat := ⟨"A", ⟨[("x", .leaf 1)], true⟩, []⟩
+    let arg : SetArg Nat Nat := ⟨.tensor, 0, 7, some 7, 0, none⟩
+    let ck : CopyOk := ⟨true, true, true, true, true⟩
+    setTuple ["x"] ⟨false, false⟩ .any true ck false (fun _ => .error .runtime) tc ["x"] arg = .error .lock
+    ∧ (setTuple ["x"] ⟨false, false⟩ .any true ck true (fun _ => .error .runtime) tc ["x"] arg).bind (fun tc' => getField tc' "x")
+        = .ok (.tensor 7) := by
+  simp [setTuple, setFieldI, setPlan, runSetPlan, tdSetEntry, TDm.keys, setTensor, getField, assocSet, assocDel, List.lookup,
+    unwrapEntry, Except.bind, bind]
+
+end inplace
 
 -- non-vacuity: concrete, non-trivial values satisfying the hypotheses used above
 example : Matching ["x", "s", "o"] ["x", "s"] ([("o", none)] : NT Nat) := by
